@@ -175,6 +175,46 @@ def dtype_cases(chk: core.Check, n: int):
                 return
 
 
+def layout_cases(chk: core.Check, n: int):
+    """the SAME matrices held in memory in different ways (C order, a transposed view of a (5,5,N) array, Fortran order, every
+    second matrix of a longer array; awkward itself refuses big-endian buffers): the result is J E J^T for the values, whatever the layout"""
+    import awkward as ak
+    rng = np.random.default_rng(chk.seed + 1213)
+    h = hc.gen(rng, n, far=False)
+    reg = hc.regular_mask(h, eps=1e-2)
+    A = rng.normal(size=(n, 5, 5))
+    E = A @ A.transpose(0, 2, 1) * 1e-3                      # not symmetric under a permutation of memory order
+    newp = ak.zip({"x": np.array(h["new"][:, 0]), "y": np.array(h["new"][:, 1]), "z": np.array(h["new"][:, 2])}, with_name="Vector3D")
+    ref = ak.to_numpy(hc.impl_arr(h, error=np.ascontiguousarray(E)).change_pivot(newp).error).astype(float)
+    same = ak.zip({"x": np.array(h["piv"][:, 0]), "y": np.array(h["piv"][:, 1]), "z": np.array(h["piv"][:, 2])}, with_name="Vector3D")
+    ref_same = ak.to_numpy(hc.impl_arr(h, error=np.ascontiguousarray(E)).change_pivot(same).error).astype(float)
+    wide = np.zeros((2 * n, 5, 5)); wide[::2] = E
+    layouts = {
+        "transposed view of a (5,5,N) array": np.ascontiguousarray(E.transpose(1, 2, 0)).transpose(2, 0, 1),
+        "Fortran-ordered": np.asfortranarray(E),
+        "every second matrix of a longer array": wide[::2],
+        "inner axes swapped view of the transposes": np.ascontiguousarray(E.transpose(0, 2, 1)).transpose(0, 2, 1),
+    }
+    for name, Ev in layouts.items():
+        assert np.array_equal(np.asarray(Ev, dtype=float), E)
+        for where in ("moved", "same pivot"):
+            tgt = newp if where == "moved" else ak.zip({"x": np.array(h["piv"][:, 0]), "y": np.array(h["piv"][:, 1]), "z": np.array(h["piv"][:, 2])}, with_name="Vector3D")
+            want = ref if where == "moved" else ref_same
+            got = ak.to_numpy(hc.impl_arr(h, error=Ev).change_pivot(tgt).error).astype(float)
+            chk.count(n, key=f"layout-{name}-{where}")
+            chk.hist("error_layout", name, n)
+            m2 = np.sqrt(np.einsum("nii->ni", np.abs(want)))
+            tol = 1e-9 * (m2[:, :, None] * m2[:, None, :]) + 1e-13
+            bad = (np.abs(got - want) > tol).any(axis=(1, 2)) & reg
+            if bad.any():
+                i = int(np.nonzero(bad)[0][0])
+                chk.failing_input(f"change_pivot(...).error (array form, {where}) for error matrices held as: {name}",
+                                  {"helix": {kk: float(h[kk][i]) for kk in ("dr", "phi0", "kappa", "dz", "tanl")}, "pivot": h["piv"][i].tolist(), "new_pivot": (h["new"][i] if where == "moved" else h["piv"][i]).tolist(),
+                                   "error": E[i].tolist(), "layout": name, "strides": list(np.asarray(Ev).strides), "track": i, "n_tracks": n},
+                                  got[i].tolist(), want[i].tolist(), "the returned error matrix equals J E J^T for the matrix VALUES of that track (what a C-contiguous copy of the same array gives)")
+                return
+
+
 def main(chk: core.Check) -> int:
     n, n_obj = (8000, 400) if chk.tier == "thorough" else (800, 60)
     chk.coverage["rule"] = "evaluations = change_pivot calls (incl. 20 per track for the finite-difference stencil); entries compared relative to sigma_i*sigma_j at 2e-4"
@@ -186,6 +226,8 @@ def main(chk: core.Check) -> int:
         diffs = run(chk, n, n_obj)
         if not chk.failing:
             dtype_cases(chk, 600 if chk.tier == "thorough" else 90)
+        if not chk.failing:
+            layout_cases(chk, 400 if chk.tier == "thorough" else 60)
         chk.coverage["traces_validated_against_impl"] = n
         if diffs:
             chk.obligation_broken("correspondence", "Lean Float jacobian/propagate vs implementation", str(diffs[:2])[:3000])
